@@ -79,11 +79,34 @@ func tree(w *sharedWriter) []slog.Handler {
 	return []slog.Handler{root, a, b, ga}
 }
 
-func record(i, thread, slot int) slog.Record {
+// reentrant is a value whose resolution logs through another handler of the
+// same tree, as a LogValuer that reports through the application logger does.
+type reentrant struct {
+	h slog.Handler
+}
+
+func (v reentrant) LogValue() slog.Value {
+	r := slog.NewRecord(time.Time{}, slog.LevelWarn, "nested", 0)
+	r.AddAttrs(slog.Int("t", 9), slog.Int("s", 9))
+	_ = v.h.Handle(context.Background(), r)
+
+	return slog.StringValue("resolved")
+}
+
+func record(i, thread, slot int, hs []slog.Handler) slog.Record {
 	lvl := []slog.Level{slog.LevelInfo, slog.LevelError, slog.LevelDebug}[i%3]
 	msgs := []string{"plain", "needs \"quotes\" and\nnewline", strings.Repeat("long-", 80)}
-	r := slog.NewRecord(time.Time{}, lvl, msgs[i%3], 0)
+	msg := msgs[i%3]
+	if i == 3 {
+		// Larger than any plausible "do not keep huge buffers" threshold.
+		msg = strings.Repeat("huge-", 8000)
+	}
+
+	r := slog.NewRecord(time.Time{}, lvl, msg, 0)
 	r.AddAttrs(slog.Int("t", thread), slog.Int("s", slot), slog.String("k", fmt.Sprintf("v%d", i)))
+	if i == 4 {
+		r.AddAttrs(slog.Any("re", reentrant{h: hs[2]}))
+	}
 
 	return r
 }
@@ -97,11 +120,22 @@ func (s *scenario) Exec(run func(threads ...func()) *verifsched.Exec) (out e3.Ou
 		for ti, prog := range s.Progs {
 			for si, c := range prog {
 				before := w.buf.Len()
-				if err := hs[c.Node].Handle(context.Background(), record(c.Rec, ti, si)); err != nil {
+				var err error
+				if pv, _ := runlib.Try(func() { err = hs[c.Node].Handle(context.Background(), record(c.Rec, ti, si, hs)) }); pv != nil {
+					out.Viols = append(out.Viols, e3.Viol{Kind: "sequential-panic", What: fmt.Sprintf("sequential Handle of call %+v panicked: %v", c, pv)})
+
+					return out
+				}
+
+				if err != nil {
 					out.Viols = append(out.Viols, e3.Viol{Kind: "sequential-error", What: err.Error()})
 				}
 
-				want = append(want, w.buf.String()[before:])
+				for _, l := range strings.SplitAfter(w.buf.String()[before:], "\n") {
+					if l != "" {
+						want = append(want, l)
+					}
+				}
 			}
 		}
 	}
@@ -113,7 +147,7 @@ func (s *scenario) Exec(run func(threads ...func()) *verifsched.Exec) (out e3.Ou
 	for ti, prog := range s.Progs {
 		threads = append(threads, func() {
 			for si, c := range prog {
-				if err := hs[c.Node].Handle(context.Background(), record(c.Rec, ti, si)); err != nil {
+				if err := hs[c.Node].Handle(context.Background(), record(c.Rec, ti, si, hs)); err != nil {
 					errs = append(errs, err.Error())
 				}
 			}
@@ -206,6 +240,15 @@ func main() {
 				items = append(items, item{&scenario{Progs: [][]call{{{a, 0}}, {{b, 1}}}}, full})
 				items = append(items, item{&scenario{Progs: [][]call{{{a, 2}}, {{b, 2}}}}, full})
 			}
+		}
+
+		// A huge record followed by small ones on the same pooled buffer, and a
+		// record whose attribute logs re-entrantly through a sibling handler.
+		for a := 0; a < nodes; a++ {
+			items = append(items, item{&scenario{Progs: [][]call{{{a, 3}, {a, 0}, {1, 1}}}}, full})
+			items = append(items, item{&scenario{Progs: [][]call{{{a, 3}}, {{1, 0}, {2, 1}}}}, full})
+			items = append(items, item{&scenario{Progs: [][]call{{{a, 4}, {a, 0}}}}, full})
+			items = append(items, item{&scenario{Progs: [][]call{{{a, 4}}, {{2, 0}}}}, full})
 		}
 
 		// 2 x 2 and 3 x 1: preemption bounded.
